@@ -202,6 +202,59 @@ theorem accept_feature_data_iff_same_block (g : Graph) (p : Path) (t b : Nat) (o
       · simp [h3, h4]
     · simp [h1, h3]
 
+/-- an accepted `feature.data = x` links the target node itself and records its class: the feature's `data` link leads
+to the very node `t`, and `target_type` says DataArray / DataFrame according to what `t` is (so `Feature.data` hands
+out the entity itself, seen as what it is) -/
+theorem feature_data_links_target_itself (g g' : Graph) (p : Path) (t b : Nat) (o : Loc)
+    (ho : resolve g rootLoc p = some o) (hk : kindOf g o.key = "feature") (hb : blockOfPath g p = some b)
+    (h : setRole g p "data" (some t) = .ok g') :
+    g'.child? o.key "data" = some t ∧
+      g'.getAttr o.key "target_type" =
+        some (if kindOf g t = "data_array" then "DataArray" else "DataFrame") := by
+  have hnode : (g.node? o.key).isSome := kindOf_ne_empty_node (by rw [hk]; decide)
+  unfold setRole at h
+  simp only [ho, hk, hb, isKind] at h
+  by_cases h1 : kindOf g t = "data_array"
+  · by_cases h2 : inBlockStore g b "data_arrays" t = true
+    · simp [h1, h2] at h
+      subst h
+      refine ⟨child?_createLinkIn_self _ _ t (by rw [node?_isSome_setAttr]; exact hnode), ?_⟩
+      rw [getAttr_createLinkIn', getAttr_setAttr]
+      simp [h1, hnode]
+    · simp [h1, h2] at h
+  · by_cases h3 : kindOf g t = "data_frame"
+    · by_cases h4 : inBlockStore g b "data_frames" t = true
+      · by_cases h5 : g.getAttr o.key "link_type" = some "tagged"
+        · simp [h1, h3, h4, h5] at h
+        · simp [h1, h3, h4, h5] at h
+          subst h
+          refine ⟨child?_createLinkIn_self _ _ t (by rw [node?_isSome_setAttr]; exact hnode), ?_⟩
+          rw [getAttr_createLinkIn', getAttr_setAttr]
+          simp [h1, hnode]
+      · simp [h1, h3, h4] at h
+    · simp [h1, h3] at h
+
+/-- an accepted `x.metadata = section` links the section node itself (whatever id it carries): the owner's `metadata`
+link leads to the very node `t`, and only sections are accepted -/
+theorem metadata_links_target_itself (g g' : Graph) (p : Path) (t : Nat) (o : Loc)
+    (ho : resolve g rootLoc p = some o) (h : setRole g p "metadata" (some t) = .ok g') :
+    g'.child? o.key "metadata" = some t ∧ kindOf g t = "section" := by
+  unfold setRole at h
+  simp only [ho] at h
+  split at h
+  · cases h
+  · rename_i hkind
+    split at h
+    · cases h
+    · rename_i hsec
+      have hnode : (g.node? o.key).isSome := by
+        apply kindOf_ne_empty_node
+        intro e
+        apply hkind
+        simp [e]
+      cases h
+      exact ⟨child?_createLinkIn_self g _ t hnode, by simpa [isKind] using hsec⟩
+
 /-- a refused call (or one that cannot even be formed) leaves the graph exactly as it was -/
 theorem refused_unchanged (g : Graph) (op : Op)
     (h : (∃ e, apply g op = some (.error e)) ∨ apply g op = none) : step g op = g := by
